@@ -223,9 +223,13 @@ impl AsRef<[u8]> for FlakyOwner {
 }
 
 /// read every byte of a result: exposing uninitialised memory is only visible (to Miri) when it is read
+/// (the data-dependent branch makes valgrind's memcheck report it too: "conditional jump depends on uninitialised value")
 fn touch(b: &[u8]) {
+    static ODD: std::sync::atomic::AtomicU32 = std::sync::atomic::AtomicU32::new(0);
     let s: u32 = b.iter().map(|&x| x as u32).sum();
-    std::hint::black_box(s);
+    if std::hint::black_box(s) & 1 == 1 {
+        ODD.fetch_add(1, std::sync::atomic::Ordering::Relaxed);
+    }
 }
 
 pub const N_ENTRY: usize = 36;
